@@ -159,3 +159,26 @@ Example ex_list_gap : consec_ok [LReg 1 1; LReg 1 3] = false.
 Proof. vm_compute. reflexivity. Qed.
 Example ex_list_group : consec_ok [LReg 1 4; LReg 0 5] = false.
 Proof. vm_compute. reflexivity. Qed.
+
+(* 12. a vector argument passed by reference (Windows x64): "p := address of a temporary" (opcode 30, no uses) is an
+       instruction of the source too; the allocated code computes it (lea rax, [rsp+32]), stores the vector in the temporary
+       (slot 32, 16 bytes), moves the pointer to rcx; the call (opcode 31) reads the pointer AND the 16 bytes of the temporary
+       and destroys the temporary. Refused: a spill into the temporary before the call; the pointer not in rcx. *)
+Definition xmm1 := LReg 1 1.  Definition s32 := LSlot 32%Z.  Definition s40 := LSlot 40%Z.
+Definition ex_src_byref : sprog :=
+  [ SOp 10 [] [(1, 16%nat)]; SOp 30 [] [(50, 8%nat)]; SOp 31 [(50, 8%nat); (1, 16%nat)] [(2, 8%nat)]; SMove 100 2 8; SRet [(100, 8%nat)] ].
+Definition ex_byref_good : tprog :=
+  [ TOp 10 [] [(xmm1, 16%nat)]; TOp 30 [] [(rax, 8%nat)]; TMove s32 xmm1 16 false 16; TMove rcx rax 8 false 8;
+    TOp 31 [(rcx, 8%nat); (s32, 16%nat)] [(rax, 8%nat); (rcx, 8%nat); (rdx, 8%nat); (s32, 16%nat)]; TRet [(rax, 8%nat)] ].
+Example ex_byref_accepted : validate_full ex_src_byref ex_byref_good [Some 0; Some 1; None; None; Some 2; Some 4]%nat = true.
+Proof. vm_compute. reflexivity. Qed.
+Definition ex_byref_overwritten : tprog :=
+  [ TOp 10 [] [(xmm1, 16%nat)]; TOp 30 [] [(rax, 8%nat)]; TMove s32 xmm1 16 false 16; TMove s40 rdx 8 false 8; TMove rcx rax 8 false 8;
+    TOp 31 [(rcx, 8%nat); (s32, 16%nat)] [(rax, 8%nat); (rcx, 8%nat); (rdx, 8%nat); (s32, 16%nat)]; TRet [(rax, 8%nat)] ].
+Example ex_byref_overwritten_rejected : validate ex_src_byref ex_byref_overwritten [Some 0; Some 1; None; None; None; Some 2; Some 4]%nat = false.
+Proof. vm_compute. reflexivity. Qed.
+Definition ex_byref_no_pointer : tprog :=
+  [ TOp 10 [] [(xmm1, 16%nat)]; TOp 30 [] [(rax, 8%nat)]; TMove s32 xmm1 16 false 16;
+    TOp 31 [(rcx, 8%nat); (s32, 16%nat)] [(rax, 8%nat); (rcx, 8%nat); (rdx, 8%nat); (s32, 16%nat)]; TRet [(rax, 8%nat)] ].
+Example ex_byref_no_pointer_rejected : validate ex_src_byref ex_byref_no_pointer [Some 0; Some 1; None; Some 2; Some 4]%nat = false.
+Proof. vm_compute. reflexivity. Qed.
